@@ -352,6 +352,16 @@ func (c *fctx) stmt(o *out, ind int, s ast.Stmt) {
 				return
 			}
 		}
+		if fl, ok := t.Call.Fun.(*ast.FuncLit); ok && len(t.Call.Args) == 0 && len(fl.Type.Params.List) == 0 && c.loop == nil {
+			// defer func() { ... }(): runs at every return of this function, after the results are set
+			for i := 0; i < c.fi.results.Len(); i++ {
+				if n := c.fi.results.At(i).Name(); n == "" || n == "_" {
+					bad("deferred closure in a function without named results at %s", c.site(s.Pos()))
+				}
+			}
+			c.defers = append(c.defers, fl)
+			return
+		}
 		if se, ok := t.Call.Fun.(*ast.SelectorExpr); ok && se.Sel.Name == "Close" && c.x.kindOf(c.typeOf(se.X)) == kSock {
 			return // defer s.Close(): resource discipline (C19, facts + fault enumeration), not behaviour of this layer
 		}
@@ -496,6 +506,10 @@ func (c *fctx) assign(o *out, ind int, t *ast.AssignStmt) {
 	}
 	if len(t.Lhs) == 1 {
 		if call, ok := t.Rhs[0].(*ast.CallExpr); ok {
+			if se, ok := call.Fun.(*ast.SelectorExpr); ok && c.x.kindOf(c.typeOf(se.X)) == kSock && (se.Sel.Name == "Close" || se.Sel.Name == "Write") {
+				c.callStmt(o, ind, call, t.Lhs, t.Tok == token.DEFINE)
+				return
+			}
 			if f := calleeFunc(c.info, call); f != nil {
 				if ci := c.x.funcs[f]; ci != nil && len(ci.mutParams) > 0 {
 					c.callStmt(o, ind, call, t.Lhs, t.Tok == token.DEFINE)
@@ -555,6 +569,39 @@ func (c *fctx) define(o *out, ind int, lhs ast.Expr, val string, isDefine bool) 
 
 func (c *fctx) ret(o *out, ind int, t *ast.ReturnStmt) {
 	res := c.fi.results
+	if len(c.defers) > 0 && !c.inDefer {
+		if c.loop != nil {
+			bad("return inside a loop of a function with deferred closures at %s", c.site(t.Pos()))
+		}
+		// set the named results, run the deferred closures (last first), return the named results
+		if len(t.Results) == res.Len() {
+			for i, r := range t.Results {
+				var val string
+				if isNil(r) {
+					val = c.nilOf(res.At(i).Type(), r.Pos())
+				} else {
+					val = c.expr(r)
+				}
+				o.emit(ind, "%s := %s", c.varName(res.At(i)), val)
+			}
+		} else if len(t.Results) != 0 {
+			bad("return shape in a function with deferred closures at %s", c.site(t.Pos()))
+		}
+		c.inDefer = true
+		for i := len(c.defers) - 1; i >= 0; i-- {
+			c.block(o, ind, c.defers[i].Body.List)
+		}
+		c.inDefer = false
+		var nv []string
+		for i := 0; i < res.Len(); i++ {
+			nv = append(nv, c.varName(res.At(i)))
+		}
+		o.emit(ind, "return %s", c.retTuple(nv))
+		return
+	}
+	if c.inDefer {
+		bad("return inside a deferred closure at %s", c.site(t.Pos()))
+	}
 	var vals []string
 	if len(t.Results) == 0 {
 		for i := 0; i < res.Len(); i++ {
